@@ -237,15 +237,19 @@ macro_rules! cast_vec_fn {
                 }
                 panicky!(cx, a, "az", v.az::<D>(), |x: S| <S as Cast<D>>::cast(x), "az-panic");
                 panicky!(cx, a, "unwrapped_as", v.unwrapped_as::<D>(), |x: S| <S as UnwrappedCast<D>>::unwrapped_cast(x), "unwrapped_as-panic");
-                // checked_as
-                {
+                // the az trait impls themselves (the inherent methods forward to them today)
+                panicky!(cx, a, "Cast::cast", <$V<S> as Cast<$V<D>>>::cast(v), |x: S| <S as Cast<D>>::cast(x), "az-panic");
+                panicky!(cx, a, "UnwrappedCast::unwrapped_cast", <$V<S> as UnwrappedCast<$V<D>>>::unwrapped_cast(v), |x: S| <S as UnwrappedCast<D>>::unwrapped_cast(x), "unwrapped_as-panic");
+                // checked_as, inherent and trait form
+                for trait_form in [false, true] {
                     let mut want: [Option<D>; N] = [None; N];
                     let mut none_at = None;
                     for i in 0..N {
                         want[i] = <S as CheckedCast<D>>::checked_cast(a[i]);
                         if want[i].is_none() { none_at = Some(i); }
                     }
-                    match (v.checked_as::<D>(), none_at) {
+                    let got = if trait_form { <$V<S> as CheckedCast<$V<D>>>::checked_cast(v) } else { v.checked_as::<D>() };
+                    match (got, none_at) {
                         (Some(g), None) => {
                             cx.label("checked_as-some");
                             let g = g.rd();
@@ -271,9 +275,11 @@ macro_rules! cast_vec_fn {
                 panicky!(cx, a, "wrapping_as", v.wrapping_as::<D>(), |x: S| <S as WrappingCast<D>>::wrapping_cast(x), "wrapping_as-panic");
                 // the trait form is the same function
                 panicky!(cx, a, "SaturatingCast::saturating_cast", <$V<S> as SaturatingCast<$V<D>>>::saturating_cast(v), |x: S| <S as SaturatingCast<D>>::saturating_cast(x), "saturating_as-panic");
-                // overflowing_as
+                panicky!(cx, a, "WrappingCast::wrapping_cast", <$V<S> as WrappingCast<$V<D>>>::wrapping_cast(v), |x: S| <S as WrappingCast<D>>::wrapping_cast(x), "wrapping_as-panic");
+                // overflowing_as, inherent and trait form
+                for trait_form in [false, true] {
                 let want = lanes_catch(&a, |x: S| <S as OverflowingCast<D>>::overflowing_cast(x));
-                let got = vkit::catch(|| v.overflowing_as::<D>());
+                let got = vkit::catch(|| if trait_form { <$V<S> as OverflowingCast<$V<D>>>::overflowing_cast(v) } else { v.overflowing_as::<D>() });
                 match (got, want) {
                     (Ok((g, flag)), Ok(w)) => {
                         let g = g.rd();
@@ -289,6 +295,7 @@ macro_rules! cast_vec_fn {
                     }
                     (Ok(g), Err(i)) => fail!("{}<{}>::overflowing_as::<{}>({:?}) returned {:?} but the scalar cast of lane {} panics", VN, S::NAME, D::NAME, a, g, i),
                     (Err(m), Ok(w)) => fail!("{}<{}>::overflowing_as::<{}>({:?}) panicked ({}) but no lane does: {:?}", VN, S::NAME, D::NAME, a, m, w),
+                }
                 }
                 Ok(())
             }
